@@ -21,6 +21,7 @@ CHECKS = {
              "footprint in a patterned window; signed 24/40/48/56-bit helpers likewise."
              " The boundary domain also contains every integer constant found in the sources of the tree under test (and its neighbours); the 128-bit external fixed-width API and the out-of-line 32-bit readers are exercised as well."
              " Keys stepped in place by +-1..256 and 2^k steps are decoded again through every reader."
+             " Every encoder / decoder macro is also invoked with expressions as arguments (hi | lo with alternating-bit operands, base + 0, w | 0); the check gains a simd tier as soon as a scalar source tests an instruction-set macro."
              " TaggedMath.tla: Apalache proves decode(encode(v)) = v, 'first byte announces the length' and the zig-zag bijection for ALL 2^64 values (a wrong variant must be refuted); ScalarModel!KeyBridge ties that arithmetic form to the byte-level definitions.",
         ref="DESIGN.md 4/C01", technique="TLA+ spec (ScalarBytes/ScalarModel) checked by TLC + TLC trace validation of the C API (ScalarTrace) + Apalache lemmas over the unbounded 64-bit domain"),
     "C04": dict(
@@ -37,7 +38,7 @@ CHECKS = {
              "sorted boundary domain (order on the domain follows by transitivity); trace validation checks the sign "
              "of the C library's memcmp over keys the real encoder produced for boundary pairs, one-byte-different "
              "pairs, random pairs and tuples of 1..3 values."
-             " Keys are also produced through the 32-bit and fixed-width writers and by in-place adds (large steps and counter-style +-1..256 steps): a stored varint must be THE encoding of its value however it got there."
+             " Keys are also produced through the 32-bit and fixed-width writers and by in-place adds (large steps and counter-style +-1..256 steps): a stored varint must be THE encoding of its value however it got there. Keys are built at every alignment 0..7 of their first byte."
              " TaggedMath.tla: Apalache proves that the memcmp key is strictly increasing over ALL pairs of 64-bit values (hence also injective), not only on the boundary domain.",
         ref="DESIGN.md 4/C05", technique="TLA+ order lemmas checked by TLC + TLC trace validation of memcmp over real keys + Apalache lemmas over the unbounded 64-bit domain"),
     "C07": dict(
@@ -61,7 +62,7 @@ CHECKS = {
              "operand immutability after every step; seeded 40-step histories cross 4096 repeatedly."
              " A second family (algebra walks) pairs 14 left-operand constructions with every binary operation and 12 right operands of every container kind (array, bitmap, run), both argument orders; Optimize and the statistics' cardinality are observed too."
              " Further families: range walks (pairs of AddRange/RemoveRange around container and universe edges), list walks (AddMany/from-array constructions with duplicates and unsorted input), and the neutral operations Clone, serialise/deserialise, Optimize and export-as-runs, each of which must leave the abstract set unchanged."
-             " The serialised form of every Codec step is compared with the documented container layouts (conformance note).",
+             " The serialised form of every Codec step is compared with the documented container layouts (conformance note). State walks: seven object states only a sequence reaches (cleared / thinned dense container, emptied array, touched run container, deserialised empty set) x neutral operation x edge mutator.",
         ref="DESIGN.md 4/C08", technique="TLA+ refinement model (TLC exhaustive) + TLC-enumerated histories replayed on the code + stateful TLC trace validation"),
     "C09": dict(
         text="Packed.tla states the layout as a flat LSB-first bit string; PackedModel.tla enumerates the admissible "
@@ -72,7 +73,7 @@ CHECKS = {
              "(guard page: only the element's slots may be touched); the sorted-layer sequences are replayed on the "
              "real arrays and judged on the decoded element sequence with the length carried as trace-spec state."
              " Sorted walks are replayed under order-preserving embeddings (identity, across the top bit, flush against the maximum) in guard-page mappings; element indices around bit offsets 2^31, 2^32, 2^33 are exercised in a sparse 1 GiB array."
-             " 103 configurations incl. declared maximum lengths 255/256/257 filled to the limit (fill walks), and the byte-count ('Bytes') entry points of every variant.",
+             " 106 configurations incl. declared maximum lengths 255/256/257 filled to the limit (fill walks), and the byte-count ('Bytes') entry points of every variant; instantiations with nothing / only the width requested (the header's defaults); every other Set is verified by a read made in the same function as the write.",
         ref="DESIGN.md 4/C09", technique="TLA+ bit-string contract + TLC-enumerated configurations and operation sequences + TLC trace validation of memory images"),
     "C10": dict(
         text="Dimension.tla states the packed form, the width-pair byte, the header layout and the cell address; "
@@ -83,7 +84,7 @@ CHECKS = {
              "every entry kind get 14-step write sequences. DimensionTrace.tla requires every changed byte to lie in "
              "the addressed cell, checks cell bytes, read-back, bit clear/toggle semantics, and carries the matrix "
              "content as state to check re-reads of earlier cells."
-             " DimensionMath.tla: Apalache proves pair packing (minimal level, fits 64 bits, unpack(pack) = id, refusal exactly from 2^32) for every pair.",
+             " DimensionMath.tla: Apalache proves pair packing (minimal level, fits 64 bits, unpack(pack) = id, refusal exactly from 2^32) for every pair. Matrices also arrive as images copied over the previous matrix (same address and size, another shape).",
         ref="DESIGN.md 4/C10", technique="TLA+ format/address spec checked by TLC + TLC-enumerated dimension pairs + stateful TLC trace validation with sparse guard mappings + Apalache lemmas over the unbounded 64-bit domain"),
     "C11": dict(
         text="BitstreamModel.tla checks the documented high/low split algorithm against the flat MSB-first bit-string "
@@ -92,14 +93,14 @@ CHECKS = {
              "uint32_t/uint16_t/uint8_t word types and every (offset mod word, width) pair x value/prior classes is "
              "run in an isolation layout (every other bit compared) and a tight layout (guard page behind the "
              "overlapping words); BitstreamTrace.tla judges each image; signed helpers for widths 2..64."
-             " Bit offsets around 2^31 and 2^32 are exercised in a sparse 512 MiB stream.",
+             " Bit offsets around 2^31 and 2^32 are exercised in a sparse 512 MiB stream. Every case is repeated as read - write - read inside one function (inline functions visible to the optimiser).",
         ref="DESIGN.md 4/C11", technique="TLA+ algorithm model checked exhaustively by TLC + TLC trace validation of memory images"),
     "C12": dict(
         text="AddModel.tla is the in-place-add state machine over slot memory; TLC explores all add histories to depth "
              "2 (quick) / 3 (thorough) from every documented length boundary, checks width/isolation invariants, and "
              "every explored edge is replayed on varintTagged/ExternalAdd{Grow,NoGrow}; the trace spec carries the "
              "slot state across seeded walks and checks sum, returned width, overflow report and that no byte beyond "
-             "the allowed footprint changes.",
+             "the allowed footprint changes. Tagged slots wider than their value needs (written by the fixed-width writer) are stepped as well.",
         ref="DESIGN.md 4/C12", technique="TLA+ state machine (AddModel) explored by TLC, edges replayed on the code, TLC trace validation"),
     "C02": dict(
         text="The array codecs are specified as a register (StoreTrace.tla): Encode stores a sequence, every reader "
@@ -145,7 +146,7 @@ CHECKS = {
              "of the bounded tagged reader and seeded random strings they are decoded by the real entry points inside "
              "exact-size guard-page buffers with a fenced, request-recording allocator and a per-call alarm. "
              "HostileTrace.tla accepts only: no access at/after the declared size, termination, bounded allocation, "
-             "result <= capacity; the bounded tagged reader must equal TaggedGetBounded exactly.",
+             "result <= capacity; the bounded tagged reader must equal TaggedGetBounded exactly. Capacities 0 and 1 are among the cases; the vectorised builds (simd tier) run too.",
         ref="DESIGN.md 4/C14", technique="TLA+-generated hostile inputs + TLC trace validation of a safety contract with guard pages / fenced allocator"),
     "C16": dict(
         text="Every metadata field an encoder reports and every header accessor result is compared by TLC with ground "
@@ -178,7 +179,7 @@ CHECKS = {
              " Every codec's first call in the process is made by all threads at once behind a spin barrier (cold start; 24/200 extra processes), the sequential reference is computed after the threads; the threads' packed arrays and bitstreams lie back to back in one slab."
              " Reader threads decode shared encodings while writers encode into private buffers; shared bitmap objects are queried concurrently; a driver crash or hang under concurrency is re-run single-threaded and, if it then completes, becomes a Crash event (not an action of the specification)."
              " Scalar varints of every width lie back to back across the threads' regions and are rewritten / stepped in place (tagged and external, no-grow) by their owners."
-             " Shared read-only objects (pre-analysed FOR descriptor, built dictionary, parsed PFOR header) are built once and then only passed to the library by all threads.",
+             " Shared read-only objects (pre-analysed FOR descriptor, built dictionary, parsed PFOR header) are built once and then only passed to the library by all threads. A -std=gnu99 build (C11-only qualifiers vanish) and a short-input call class (12 and 100 values) run as well.",
         ref="DESIGN.md 4/C17", technique="TLA+ interleaving model (TLC) + per-thread TLC trace validation + ThreadSanitizer reports as trace events"),
     "C18": dict(
         text="AllocModel.tla explores object lifetimes with a fault at every allocation step of every call and checks "
@@ -188,7 +189,7 @@ CHECKS = {
              "leak, and either the documented failure indication with pre-existing objects unchanged or a fully correct "
              "result (codec output must decode to the input; the bitmap must equal the abstract set, which the spec "
              "carries as state through the follow-up operations)."
-             " The adaptive entry points are additionally fault-injected on every threshold recipe of Selector.tla (a failed allocation replaces statistics by estimates) and the bitmap scenarios straddle every conversion threshold in both directions.",
+             " The adaptive entry points are additionally fault-injected on every threshold recipe of Selector.tla (a failed allocation replaces statistics by estimates) and the bitmap scenarios straddle every conversion threshold in both directions; Optimize, serialise and clone run in states where they have work to do.",
         ref="DESIGN.md 4/C18", technique="TLA+ lifetime model (TLC) + exhaustive single-fault enumeration per call via allocator shim + stateful TLC trace validation"),
 }
 
